@@ -9,3 +9,7 @@ Definition find_first_engine (ci : bool) : str -> rast -> option (nat * nat) :=
   if ci then find_first_ci else find_first_cs_engine.
 Definition pends_engine (ci : bool) : str -> rast -> nat -> list nat :=
   if ci then pends lit_ci cls_engine_b range_ci else pends_cs cls_engine_b.
+
+Definition find_iter_count_engine (ci : bool) : str -> rast -> nat :=
+  if ci then find_iter_count lit_ci cls_engine_b range_ci
+  else find_iter_count lit_cs cls_engine_b range_cs.
